@@ -159,12 +159,40 @@ Definition codec_shared_calls_bad : list (string * string * string) :=
      then map (fun n => (p, m, n))
               (filter (fun n => negb (last_segment_ok n)) (ev_names "MS" evs ++ ev_names "MP" evs))
      else [] end) method_events.
-(* (3b) through the codec.Parameters interface the caller's object is only ever asked GetParameter *)
+(* (3b) through the codec . Parameters interface the caller's object is asked GetParameter only,
+   except for inspected write-backs that sit under an "already holds this value => no write"
+   test: the SetParameter event must be directly preceded (region starts aside) by a
+   GetParameter event one nesting level up, and the (package, method) must be listed here.
+   jpegls/nearlossless Decode (after the repair of finding F24):
+       if current, ok := parameters.GetParameter("near").(int); !ok || current != near {
+           parameters.SetParameter("near", near) }
+   Documented limit: with ONE shared parameters object and streams whose NEAR differs from the
+   value in the object the write still happens (and then races); with streams coded with those
+   parameters — what a Transcoder does — it never does. *)
+Definition iface_set_allow : list (string * string) := [("jpegls/nearlossless", "Decode")].
+
+Fixpoint set_guarded (prev : option ev) (evs : list ev) : bool :=
+  match evs with
+  | [] => true
+  | e :: r =>
+      let '(k, n, d) := e in
+      if String.eqb k "B" then set_guarded prev r
+      else if String.eqb k "I" && negb (String.eqb n "iface.GetParameter") then
+        (String.eqb n "iface.SetParameter" &&
+         match prev with
+         | Some (k', n', d') => String.eqb k' "I" && String.eqb n' "iface.GetParameter" && Nat.eqb (S d') d
+         | None => false
+         end) && set_guarded (Some e) r
+      else set_guarded (Some e) r
+  end.
+
 Definition codec_iface_calls_bad : list (string * string * string) :=
   flat_map (fun x => match x with (p, t, c, m, evs) =>
      if String.eqb c "codec"
      then map (fun n => (p, m, n))
-              (filter (fun n => negb (String.eqb n "iface.GetParameter")) (ev_names "I" evs))
+              (filter (fun n => negb (String.eqb n "iface.GetParameter")
+                                && negb (mem2 (p, m) iface_set_allow && set_guarded None evs))
+                      (ev_names "I" evs))
      else [] end) method_events.
 (* (4) GetParameter of every parameter type writes nothing *)
 Definition getparameter_writes : list (string * string) :=
@@ -199,63 +227,44 @@ Lemma nondet_ok_true : nondet_ok = true.
 Proof. vm_compute. reflexivity. Qed.
 Lemma codec_receiver_ok_true : codec_receiver_ok = true.
 Proof. vm_compute. reflexivity. Qed.
-Lemma params_parts_true :
-  codec_shared_stores = [] /\ param_store_violations = [] /\ codec_shared_calls_bad = [] /\
-  getparameter_writes = [].
-Proof. repeat split; vm_compute; reflexivity. Qed.
-
-(* FINDING (C18).  The one part of facts_ok_statement that fails on the unchanged /repo:
-   Validate of htj2k.Parameters (pointer receiver) assigns p.BlockWidth and p.BlockHeight unconditionally
-   (`p.BlockWidth = nearestPowerOf2(p.BlockWidth)`), i.e. it WRITES an already valid object.
-   Two goroutines that call the HTJ2K codecs with one shared htj2k.Parameters object (what
-   GetDefaultParameters() returns; what a shared Transcoder passes) therefore race on these
-   two fields (write/write and write/read in Encode's `htj2kParams.BlockWidth`). *)
-Lemma validate_unguarded_writes_now :
-  validate_unguarded_writes =
-    [("jpeg2000/htj2k", "Parameters_go", "BlockWidth"); ("jpeg2000/htj2k", "Parameters_go", "BlockHeight")].
+Lemma params_ok_true : params_ok = true.
 Proof. vm_compute. reflexivity. Qed.
 
-(* FINDING (C18), second: Decode of the JPEG-LS near-lossless codec calls
-   parameters.SetParameter("near", near) on the CALLER's parameters object for every frame
-   (jpegls/nearlossless/codec.go), i.e. it writes a shared object: concurrent Decode calls
-   race with each other (write/write on NEAR) and with Encode's Validate (read). *)
-Lemma codec_iface_calls_bad_now :
-  codec_iface_calls_bad = [("jpegls/nearlossless", "Decode", "iface.SetParameter")].
-Proof. vm_compute. reflexivity. Qed.
+(* The C18 static obligation, in full, for /repo as it is now. *)
+Theorem facts_ok : facts_ok_statement.
+Proof. unfold facts_ok_statement. vm_compute. reflexivity. Qed.
 
-Theorem facts_ok_refuted : facts_ok_full = false.
-Proof. vm_compute. reflexivity. Qed.
-
-(* everything else of the obligation holds: *)
-Theorem facts_ok_partial :
-  pkg_level_ok = true /\ imports_ok = true /\ nondet_ok = true /\ codec_receiver_ok = true /\
-  codec_shared_stores = [] /\ param_store_violations = [] /\ codec_shared_calls_bad = [] /\
-  getparameter_writes = [] /\
-  (forall v, In v validate_unguarded_writes ->
-     fst (fst v) = "jpeg2000/htj2k" /\ snd (fst v) = "Parameters_go") /\
-  (forall v, In v codec_iface_calls_bad -> v = ("jpegls/nearlossless", "Decode", "iface.SetParameter")).
-Proof.
-  split; [apply pkg_level_ok_true|]. split; [apply imports_ok_true|].
-  split; [apply nondet_ok_true|]. split; [apply codec_receiver_ok_true|].
-  destruct params_parts_true as [A [B [C E]]]. repeat (split; [assumption|]).
-  split.
-  - rewrite validate_unguarded_writes_now. intros v [<-|[<-|[]]]; split; reflexivity.
-  - rewrite codec_iface_calls_bad_now. intros v [<-|[]]. reflexivity.
-Qed.
-
-(* The part the property text itself names as the schedule-independent static obligation:
-   "no function other than init writes a package-level variable, and no Codec method writes a
-   receiver field" — this holds. *)
+(* the part the property text itself names: "no function other than init writes a
+   package-level variable, and no Codec method writes a receiver field" *)
 Theorem facts_static_obligation : pkg_level_ok = true /\ codec_receiver_ok = true.
 Proof. split; [apply pkg_level_ok_true|apply codec_receiver_ok_true]. Qed.
 
-(* After the repairs (drop the SetParameter call from the near-lossless Decode — or write it
-   only into a parameters object the codec created itself — and guard the two assignments: `if v := nearestPowerOf2(p.BlockWidth);
-   v != p.BlockWidth { p.BlockWidth = v }`) the list above becomes [] and the full statement
-   is proved by
-       Theorem facts_ok : facts_ok_statement. Proof. vm_compute. reflexivity. Qed.
-   (facts_ok_refuted and validate_unguarded_writes_now then no longer compile and are to be
-   replaced by it). *)
+(* the parameter-object part, item by item *)
+Theorem facts_params_obligation :
+  codec_shared_stores = [] /\ param_store_violations = [] /\ codec_shared_calls_bad = [] /\
+  codec_iface_calls_bad = [] /\ getparameter_writes = [] /\ validate_unguarded_writes = [].
+Proof. repeat split; vm_compute; reflexivity. Qed.
+
+(* the guarded write-back really is what the allow-list entry describes *)
+Definition nearlossless_decode_events : list (list ev) :=
+  flat_map (fun x => match x with (p, t, c, m, evs) =>
+     if String.eqb p "jpegls/nearlossless" && String.eqb c "codec" && String.eqb m "Decode" then [evs] else [] end)
+     method_events.
+Lemma nearlossless_writeback_guarded :
+  length nearlossless_decode_events = 1%nat /\
+  forallb (fun evs => mem "iface.SetParameter" (ev_names "I" evs) && set_guarded None evs)
+          nearlossless_decode_events = true.
+Proof. split; vm_compute; reflexivity. Qed.
+
+(* HISTORICAL WITNESSES (both found by this check and by the race detector, both repaired):
+   F23  Validate of htj2k . Parameters assigned BlockWidth and BlockHeight unconditionally
+        (`p.BlockWidth = nearestPowerOf2(p.BlockWidth)`): validate_unguarded_writes was
+        [(jpeg2000/htj2k, Parameters_go, BlockWidth); (.., BlockHeight)]; race report
+        jpeg2000/htj2k/parameters.go:128/:137 against :122/:131 with one shared default object.
+   F24  Decode of jpegls/nearlossless called parameters.SetParameter("near", near) for every
+        frame on the caller's object: codec_iface_calls_bad was
+        [(jpegls/nearlossless, Decode, iface.SetParameter)]; race report
+        jpegls/nearlossless/parameters.go:51 (write/write) and :62 (Validate read). *)
 
 (* sanity: the scan covered the whole library *)
 Lemma facts_scope :
@@ -289,82 +298,142 @@ Definition steps_mentioned (ss : list dstep) : list field :=
 
 (* one phase = a method called directly by the entry point (or the entry point's own
    statements): everything the facts say it writes / appends / reads (transitively) occurs
-   in the steps of the summary that carry its name *)
-Definition cover_phase (p ty : string) (cfg ignore_w : list field) (out_phase : string) (c : call) (m : string) : bool :=
+   in the steps of the summary that carry its name.  wmap / rmap translate Go field names into
+   the abstract fields of the summary (identity except for the Decoder's ROI pair). *)
+Definition idmap (f : field) : list field := [f].
+
+Definition cover_phase (p ty : string) (cfg ignore_w : list field) (wmap rmap : field -> list field)
+    (out_phase : string) (c : call) (m : string) : bool :=
   let cl := closure_of p ty m in
   let ss := steps_of_src m (c_steps c) in
   (* the phase that produces the returned value also reads what the summary's output reads *)
   let cfg := if String.eqb m out_phase then cfg ++ c_out_reads c else cfg in
-  subset (filter (fun f => negb (mem f ignore_w)) (cl_written cl)) (summary_written ss)
-  && subset (cl_appended cl) (summary_appended ss)
-  && (if is_nil ss then subset (cl_read cl) (summary_mentioned c ++ cfg)
-      else subset (cl_read cl) (steps_mentioned ss ++ cfg)).
+  subset (flat_map wmap (filter (fun f => negb (mem f ignore_w)) (cl_written cl))) (summary_written ss)
+  && subset (flat_map wmap (cl_appended cl)) (summary_appended ss)
+  && (if is_nil ss then subset (flat_map rmap (cl_read cl)) (summary_mentioned c ++ cfg)
+      else subset (flat_map rmap (cl_read cl)) (steps_mentioned ss ++ cfg)).
 
 (* the entry point's own (direct) events *)
-Definition cover_direct (t : mtable) (cfg : list field) (c : call) (m : string) : bool :=
+Definition cover_direct (t : mtable) (cfg : list field) (wmap rmap : field -> list field) (c : call) (m : string) : bool :=
   let evs := events_of t m in
   let ss := steps_of_src m (c_steps c) in
-  subset (ev_names "W" evs ++ ev_names "U" evs ++ ev_names "A" evs) (summary_written ss)
-  && subset (ev_names "A" evs) (summary_appended ss)
-  && subset (ev_names "R" evs ++ ev_names "G" evs) (summary_mentioned c ++ cfg).
+  subset (flat_map wmap (ev_names "W" evs ++ ev_names "U" evs ++ ev_names "A" evs)) (summary_written ss)
+  && subset (flat_map wmap (ev_names "A" evs)) (summary_appended ss)
+  && subset (flat_map rmap (ev_names "R" evs ++ ev_names "G" evs)) (summary_mentioned c ++ cfg).
 
-Definition facts_cover_call (p ty : string) (cfg ignore_w : list field) (c : call) (entry out_phase : string) : bool :=
+Definition facts_cover_call (p ty : string) (cfg ignore_w : list field) (wmap rmap : field -> list field)
+    (c : call) (entry out_phase : string) : bool :=
   let t := table p ty in
   let phases := ev_names "C" (events_of t entry) in
-  cover_direct t cfg c entry
-  && forallb (cover_phase p ty cfg ignore_w out_phase c) phases
+  cover_direct t cfg wmap rmap c entry
+  && forallb (cover_phase p ty cfg ignore_w wmap rmap out_phase c) phases
   (* every step of the summary is attributed to the entry point or one of its phases *)
   && forallb (fun s => mem (step_src s) (entry :: phases)) (c_steps c)
-  (* the task's formulation: every field the facts say is read-before-write or appended appears *)
-  && subset (rbw_of t entry) (summary_mentioned c ++ cfg)
-  && subset (cl_appended (closure_of p ty entry)) (summary_appended (c_steps c))
-  && subset (filter (fun f => negb (mem f ignore_w)) (cl_written (closure_of p ty entry))) (summary_written (c_steps c)).
+  (* every field the facts say is read-before-write or appended appears in the summary *)
+  && subset (flat_map rmap (rbw_of t entry)) (summary_mentioned c ++ cfg)
+  && subset (flat_map wmap (cl_appended (closure_of p ty entry))) (summary_appended (c_steps c))
+  && subset (flat_map wmap (filter (fun f => negb (mem f ignore_w)) (cl_written (closure_of p ty entry))))
+            (summary_written (c_steps c)).
 
 (* ---------------- Decoder ---------------- *)
 Definition dec_tab : mtable := table "jpeg2000" "Decoder".
 
+(* roiConfig and roiFromStream are assigned together wherever a phase of Decode assigns either:
+   every W roiConfig is directly followed by W roiFromStream at the same depth (this is what
+   lets the summary treat the pair as user part + stream part) *)
+Fixpoint roi_pair_ok (evs : list ev) : bool :=
+  match evs with
+  | [] => true
+  | (k, n, d) :: r =>
+      (if String.eqb k "W" && String.eqb n "roiConfig"
+       then match r with
+            | (k', n', d') :: _ => String.eqb k' "W" && String.eqb n' "roiFromStream" && Nat.eqb d d'
+            | [] => false
+            end
+       else true)
+      && roi_pair_ok r
+  end.
+Definition roi_pair_writers : list string :=
+  flat_map (fun me => if mem "roiConfig" (ev_names "W" (snd me)) || mem "roiFromStream" (ev_names "W" (snd me))
+                      then [fst me] else []) dec_tab.
+
 Definition decoder_facts_cover : bool :=
-  facts_cover_call "jpeg2000" "Decoder" decoder_cfg [] decoder_decode "Decode" ""
+  facts_cover_call "jpeg2000" "Decoder" decoder_cfg [] decoder_wmap decoder_rmap decoder_decode "Decode" ""
   (* GetPixelData writes nothing and reads what the summary's output reads *)
   && is_nil (cl_written (closure_of "jpeg2000" "Decoder" "GetPixelData"))
   && subset (cl_read (closure_of "jpeg2000" "Decoder" "GetPixelData")) (c_out_reads decoder_decode)
   (* every other method that writes a field is one of the listed setters, writing exactly that *)
   && forallb (fun me =>
         let m := fst me in
-        let w := cl_written (closure_of "jpeg2000" "Decoder" m) in
+        let w := flat_map decoder_setter_map (cl_written (closure_of "jpeg2000" "Decoder" m)) in
         is_nil w || String.eqb m "Decode"
         || mem m (cl_reached (closure_of "jpeg2000" "Decoder" "Decode"))
         || existsb (fun sc => String.eqb (c_name sc) m && subset w (summary_written (c_steps sc))
                               && subset (summary_written (c_steps sc)) w) decoder_setters)
-      dec_tab.
+      dec_tab
+  (* the ROI pair *)
+  && list_eqb roi_pair_writers ["Decode"; "SetROIConfig"; "extractROIFromCOM"]
+  && forallb (fun me => roi_pair_ok (snd me)) dec_tab.
 
 Theorem decoder_facts_cover_true : decoder_facts_cover = true.
 Proof. vm_compute. reflexivity. Qed.
 
-(* What survives a Decode according to the hand summary is confirmed by the analysis of the
-   regenerated events, and conversely the analysis finds nothing else except roiShifts/roiSrgn,
-   which it cannot see are always rewritten (captureROIShifts starts with a nil guard that is
-   never taken after a successful parse). *)
+(* What the analysis of the regenerated events still finds read before it is written in
+   Decode: the configuration (roi, blockDecoderFactory, the user's roiConfig with its flag
+   roiFromStream) and roiShifts/roiSrgn, which it cannot see are always rewritten
+   (captureROIShifts starts with a nil guard that is never taken after a successful parse).
+   mctInverse, mctOffsets, bindings, roiMasks are gone from this list since the repair. *)
 Definition uniq (l : list string) : list string := fold_left (fun acc x => add_new x acc) l [].
-Lemma decoder_persistent_fields :
-  uniq (summary_rbw [] (c_steps decoder_decode))
-    = ["roiConfig"; "mctInverse"; "mctOffsets"; "bindings"; "roi"; "roiMasks"; "blockDecoderFactory"]
-  /\ rbw_of dec_tab "Decode"
-    = ["roiConfig"; "mctInverse"; "mctOffsets"; "bindings"; "roi"; "roiShifts"; "roiSrgn"; "roiMasks";
-       "blockDecoderFactory"]
-  /\ subset (summary_rbw [] (c_steps decoder_decode)) (rbw_of dec_tab "Decode") = true
+Lemma decoder_rbw_now :
+  rbw_of dec_tab "Decode" = ["roiFromStream"; "roiConfig"; "roi"; "roiShifts"; "roiSrgn"; "blockDecoderFactory"]
+  /\ uniq (summary_rbw [] (c_steps decoder_decode)) = ["roiConfig"; "roi"; "blockDecoderFactory"]
+  /\ subset (summary_rbw [] (c_steps decoder_decode)) decoder_cfg = true
   /\ cl_appended (closure_of "jpeg2000" "Decoder" "Decode") = ["bindings"].
 Proof. repeat split; vm_compute; reflexivity. Qed.
 
-(* The computed verdict: jpeg2000.Decoder.Decode is NOT self-initialising ... *)
-Theorem decoder_not_self_initialising : self_initialising decoder_cfg decoder_decode = false.
-Proof. vm_compute. reflexivity. Qed.
+(* The computed verdict: jpeg2000.Decoder.Decode is self-initialising ... *)
+Theorem decoder_self_initialising :
+  self_initialising decoder_cfg decoder_decode = true
+  /\ compatible decoder_cfg decoder_decode decoder_decode = true
+  /\ memo_list (c_steps decoder_decode) = [].
+Proof. repeat split; vm_compute; reflexivity. Qed.
 
-(* ... and this is a real dependence on history, not an artefact of the criterion: an
-   interpretation of the opaque functions under which a two-call history changes the output.
-   Argument of a call = (stream has MCC+MCT markers, stream has MCT markers only).
-   extractBindings contributes one binding for a stream with MCC markers and nothing otherwise;
-   the inverse MCT stage applies whatever bindings / matrix the object holds. *)
+(* ... hence, for EVERY interpretation of the opaque stages and EVERY history of Decode calls on
+   one Decoder, a Decode returns what it returns on a Decoder configured alike and never used. *)
+Theorem decoder_history_independent :
+  forall (D A : Type) app app0 appendD (r0 : rec D) (h : list (call * A)) (a : A),
+    Forall (fun ca => In (fst ca) [decoder_decode]) h ->
+    snd (exec_call D A app app0 appendD a (run_history D A app app0 appendD h r0) decoder_decode)
+    = snd (exec_call D A app app0 appendD a r0 decoder_decode).
+Proof.
+  intros D A app app0 appendD r0 h a Hh.
+  apply (history_independent D A app app0 appendD decoder_cfg decoder_decode [decoder_decode] r0).
+  - apply (proj1 decoder_self_initialising).
+  - cbn [forallb]. rewrite (proj1 (proj2 decoder_self_initialising)). reflexivity.
+  - intros f Hf. vm_compute in Hf. contradiction.
+  - assumption.
+Qed.
+
+(* also across setter calls: the result is determined by the argument and the current
+   configuration (roi, roiConfig, blockDecoderFactory, resilient, strict) *)
+Theorem decoder_config_determines_output :
+  forall (D A : Type) app app0 appendD (r r' : rec D) (a : A),
+    agree D decoder_cfg r r' ->
+    snd (exec_call D A app app0 appendD a r decoder_decode)
+    = snd (exec_call D A app app0 appendD a r' decoder_decode).
+Proof.
+  intros D A app app0 appendD r r' a Hag.
+  apply (config_determines_output D A app app0 appendD decoder_cfg decoder_decode);
+    [apply (proj1 decoder_self_initialising)|apply (proj2 (proj2 decoder_self_initialising))|exact Hag].
+Qed.
+
+(* HISTORICAL WITNESS F21 (repaired).  Before the repair Decode cleared nothing: bindings was
+   appended to, mctInverse / mctOffsets / roiMasks and a roiConfig parsed from a COM segment
+   survived.  Go history: Encode a 16x16 RGB image with MCTMatrix/InverseMCTMatrix (stream with
+   MCT, MCC, MCO markers), Decode it, then Decode a plain RCT stream on the same Decoder: 540 of
+   768 bytes differed from a fresh Decoder's output (a grey second stream panicked; the same MCT
+   stream twice applied the matrix twice).  The model of that Decoder, kept in CtrDataflow.v, is
+   rejected by the criterion and really depends on its history: *)
 Definition val0 (v : option nat) : nat := match v with Some n => n | None => O end.
 Definition dec_app (g : string) (a : bool * bool) (vs : list (option nat)) : nat :=
   if String.eqb g "mcc.bindings" then (if fst a then 1 else 0)%nat
@@ -377,52 +446,20 @@ Definition dec_app (g : string) (a : bool * bool) (vs : list (option nat)) : nat
   else O.
 Definition dec_app0 (g : string) (vs : list (option nat)) : nat := O.
 Definition dec_append (old : option nat) (new : nat) : nat := (val0 old + new)%nat.
-
-Definition dec_out (h : list (call * (bool * bool))) (a : bool * bool) : nat :=
+Definition dec_out (c : call) (h : list (call * (bool * bool))) (a : bool * bool) : nat :=
   snd (exec_call nat (bool * bool) dec_app dec_app0 dec_append a
-         (run_history nat (bool * bool) dec_app dec_app0 dec_append h (fresh nat)) decoder_decode).
+         (run_history nat (bool * bool) dec_app dec_app0 dec_append h (fresh nat)) c).
 
-Theorem C10_decoder_history_refuted :
-  (* decode a stream WITH MCC/MCT bindings, then a plain one, on the same Decoder ... *)
-  dec_out [(decoder_decode, (true, false))] (false, false) <> dec_out [] (false, false)
-  (* ... and the same with a legacy MCT-only stream (mctInverse survives) *)
-  /\ dec_out [(decoder_decode, (false, true))] (false, false) <> dec_out [] (false, false).
-Proof. split; vm_compute; discriminate. Qed.
-
-(* so no function of the argument alone describes Decode's output: frame_independent's
-   conclusion is false for this summary *)
-Corollary decoder_no_function_of_argument :
-  ~ exists F : bool * bool -> nat,
-      forall h a, Forall (fun ca => In (fst ca) [decoder_decode]) h -> dec_out h a = F a.
-Proof.
-  intros [F HF]. destruct C10_decoder_history_refuted as [H _]. apply H.
-  rewrite (HF [(decoder_decode, (true, false))] (false, false)).
-  - rewrite (HF [] (false, false)); [reflexivity|constructor].
-  - constructor; [left; reflexivity|constructor].
-Qed.
-
-(* The suggested repair, in the model: reset the stream-derived fields at the top of Decode
-   (and keep the ROI parsed from the stream apart from the user's).  Then the criterion holds
-   and history independence follows from the general theorem, for every interpretation. *)
-Theorem decoder_fixed_self_initialising :
-  self_initialising decoder_cfg_fixed decoder_decode_fixed = true
-  /\ compatible decoder_cfg_fixed decoder_decode_fixed decoder_decode_fixed = true.
-Proof. split; vm_compute; reflexivity. Qed.
-
-Theorem decoder_fixed_history_independent :
-  forall (D A : Type) app app0 appendD (r0 : rec D) (h : list (call * A)) (a : A),
-    Forall (fun ca => In (fst ca) [decoder_decode_fixed]) h ->
-    snd (exec_call D A app app0 appendD a (run_history D A app app0 appendD h r0) decoder_decode_fixed)
-    = snd (exec_call D A app app0 appendD a r0 decoder_decode_fixed).
-Proof.
-  intros D A app app0 appendD r0 h a Hh.
-  apply (history_independent D A app app0 appendD decoder_cfg_fixed decoder_decode_fixed
-           [decoder_decode_fixed] r0).
-  - apply (proj1 decoder_fixed_self_initialising).
-  - cbn [forallb]. rewrite (proj2 decoder_fixed_self_initialising). reflexivity.
-  - intros f Hf. vm_compute in Hf. contradiction.
-  - assumption.
-Qed.
+Lemma unrepaired_decoder_history_dependent :
+  self_initialising decoder_cfg_unrepaired decoder_decode_unrepaired = false
+  /\ dec_out decoder_decode_unrepaired [(decoder_decode_unrepaired, (true, false))] (false, false)
+       <> dec_out decoder_decode_unrepaired [] (false, false)
+  /\ dec_out decoder_decode_unrepaired [(decoder_decode_unrepaired, (false, true))] (false, false)
+       <> dec_out decoder_decode_unrepaired [] (false, false)
+  (* the same interpretation and histories on the repaired summary: no difference *)
+  /\ dec_out decoder_decode [(decoder_decode, (true, false))] (false, false) = dec_out decoder_decode [] (false, false)
+  /\ dec_out decoder_decode [(decoder_decode, (false, true))] (false, false) = dec_out decoder_decode [] (false, false).
+Proof. split; [vm_compute; reflexivity|]. repeat split; vm_compute; try discriminate; reflexivity. Qed.
 
 (* ---------------- Encoder ---------------- *)
 Definition enc_tab : mtable := table "jpeg2000" "Encoder".
@@ -436,21 +473,37 @@ Definition encoder_params_writers : list (string * list nat) :=
                                     (filter (fun e => mem (fst (fst e)) ["W"; "U"; "A"] && String.eqb (snd (fst e)) "params") (snd me)) in
                       if is_nil ds then [] else [(fst me, ds)]) enc_tab.
 
-(* the cache fields are written by quantizationInfo only, which reads nothing but them and params *)
-Definition qcd_fields : list field := memo_fields (c_steps encoder_encode).
-Definition qcd_writers : list string :=
-  flat_map (fun me => if existsb (fun e => mem (fst (fst e)) ["W"; "U"; "A"] && mem (snd (fst e)) qcd_fields) (snd me)
+(* The quantisation group: the four value fields are written by quantizationInfo only and read
+   by quantizationInfo only, there only inside the region that follows the read of qcdReady;
+   qcdReady itself is written by Encode / EncodeComponents (cleared) and quantizationInfo (set). *)
+Definition qcd_values : list field := ["qcdStyle"; "qcdGuard"; "qcdExpn"; "qcdSteps"].
+Definition methods_with (kinds : list string) (fields : list field) : list string :=
+  flat_map (fun me => if existsb (fun e => mem (fst (fst e)) kinds && mem (snd (fst e)) fields) (snd me)
                       then [fst me] else []) enc_tab.
+Fixpoint qcd_reads_guarded (seen_flag : bool) (evs : list ev) : bool :=
+  match evs with
+  | [] => true
+  | (k, n, d) :: r =>
+      if String.eqb k "R" && String.eqb n "qcdReady" && Nat.eqb d 0 then qcd_reads_guarded true r
+      else if String.eqb k "R" && mem n qcd_values then seen_flag && Nat.leb 1 d && qcd_reads_guarded seen_flag r
+      else qcd_reads_guarded seen_flag r
+  end.
 
 Definition encoder_facts_cover : bool :=
-  facts_cover_call "jpeg2000" "Encoder" encoder_cfg ["params"] encoder_encode "Encode" "buildCodestream"
-  (* the analysis of the regenerated events agrees with the summary: nothing but the
-     configuration and the caches is read before it is written *)
-  && subset (rbw_of enc_tab "Encode") (encoder_cfg ++ qcd_fields)
-  && subset (rbw_of enc_tab "EncodeComponents") (encoder_cfg ++ qcd_fields)
-  && subset (cl_read (closure_of "jpeg2000" "Encoder" "quantizationInfo")) (encoder_cfg ++ qcd_fields)
-  && subset (cl_written (closure_of "jpeg2000" "Encoder" "quantizationInfo")) qcd_fields
-  && list_eqb qcd_writers ["quantizationInfo"]
+  facts_cover_call "jpeg2000" "Encoder" encoder_cfg ["params"] idmap idmap encoder_encode "Encode" "buildCodestream"
+  (* the analysis of the regenerated events: nothing but the configuration and the four guarded
+     value fields is read before it is written, in Encode and in EncodeComponents *)
+  && subset (rbw_of enc_tab "Encode") (encoder_cfg ++ qcd_values)
+  && subset (rbw_of enc_tab "EncodeComponents") (encoder_cfg ++ qcd_values)
+  && subset (cl_read (closure_of "jpeg2000" "Encoder" "quantizationInfo")) (encoder_cfg ++ qcd_group)
+  && subset (cl_written (closure_of "jpeg2000" "Encoder" "quantizationInfo")) qcd_group
+  && list_eqb (methods_with ["W"; "U"; "A"] qcd_values) ["quantizationInfo"]
+  && list_eqb (methods_with ["R"; "G"; "U"; "A"] qcd_values) ["quantizationInfo"]
+  && qcd_reads_guarded false (events_of enc_tab "quantizationInfo")
+  && list_eqb (methods_with ["W"; "U"; "A"] ["qcdReady"]) ["Encode"; "EncodeComponents"; "quantizationInfo"]
+  (* the flag is cleared unconditionally (depth 0) in both entry points *)
+  && forallb (fun m => existsb (fun e => String.eqb (fst (fst e)) "W" && String.eqb (snd (fst e)) "qcdReady" && Nat.eqb (snd e) 0)
+                               (events_of enc_tab m)) ["Encode"; "EncodeComponents"]
   && subset (map fst encoder_params_writers) ["applyRateDistortionGlobal"]
   && forallb (fun w => forallb (fun d => Nat.leb 1 d) (snd w)) encoder_params_writers.
 
@@ -458,61 +511,70 @@ Theorem encoder_facts_cover_true : encoder_facts_cover = true.
 Proof. vm_compute. reflexivity. Qed.
 
 Lemma encoder_rbw_now :
-  rbw_of enc_tab "Encode" = ["params"; "qcdReady"; "qcdStyle"; "qcdGuard"; "qcdExpn"; "qcdSteps"].
+  rbw_of enc_tab "Encode" = ["params"; "qcdStyle"; "qcdGuard"; "qcdExpn"; "qcdSteps"].
 Proof. vm_compute. reflexivity. Qed.
 
 Theorem encoder_self_initialising :
   self_initialising encoder_cfg encoder_encode = true
-  /\ compatible encoder_cfg encoder_encode encoder_encode = true.
-Proof. split; vm_compute; reflexivity. Qed.
+  /\ compatible encoder_cfg encoder_encode encoder_encode = true
+  /\ memo_list (c_steps encoder_encode) = [].
+Proof. repeat split; vm_compute; reflexivity. Qed.
 
 (* C10 for one jpeg2000.Encoder object reused over frames and calls: for every interpretation
    of the opaque stages, every history of Encode calls, the output is that of a new encoder. *)
 Theorem encoder_history_independent :
-  forall (D A : Type) app app0 appendD (r0 : rec D),
-    (forall f, In f qcd_fields -> r0 f = None) ->
-    forall (h : list (call * A)) (a : A),
-      Forall (fun ca => In (fst ca) [encoder_encode]) h ->
-      snd (exec_call D A app app0 appendD a (run_history D A app app0 appendD h r0) encoder_encode)
-      = snd (exec_call D A app app0 appendD a r0 encoder_encode).
+  forall (D A : Type) app app0 appendD (r0 : rec D) (h : list (call * A)) (a : A),
+    Forall (fun ca => In (fst ca) [encoder_encode]) h ->
+    snd (exec_call D A app app0 appendD a (run_history D A app app0 appendD h r0) encoder_encode)
+    = snd (exec_call D A app app0 appendD a r0 encoder_encode).
 Proof.
-  intros D A app app0 appendD r0 Hfresh h a Hh.
+  intros D A app app0 appendD r0 h a Hh.
   apply (history_independent D A app app0 appendD encoder_cfg encoder_encode [encoder_encode] r0).
   - apply (proj1 encoder_self_initialising).
-  - cbn [forallb]. rewrite (proj2 encoder_self_initialising). reflexivity.
-  - exact Hfresh.
+  - cbn [forallb]. rewrite (proj1 (proj2 encoder_self_initialising)). reflexivity.
+  - intros f Hf. vm_compute in Hf. contradiction.
   - assumption.
 Qed.
 
-(* The hypothesis "the configuration is not written by the calls of the history" matters for
-   the Encoder too.  NewEncoder keeps the caller's pointer to EncodeParams, so a caller can change
-   the parameters between two Encode calls (the only way to code images of another depth or
-   mode with the same object).  That is a call that writes the configuration field: it is not
-   `compatible`, the theorem does not apply, and in the model the quantisation cache computed
-   for the OLD parameters survives: *)
-Definition encoder_set_params : call :=
-  mkCall "*params = ..." [SAssign "caller" "params" "new_params" []] "void" [].
+(* Since the repair of F25 also when the caller changes the EncodeParams between calls: after
+   ANY history (Encode calls, parameter changes, in any order) Encode returns what a new
+   encoder holding the current parameters returns. *)
+Theorem encoder_params_determine_output :
+  forall (D A : Type) app app0 appendD (r0 : rec D) (h : list (call * A)) (a : A),
+    Forall (fun ca => In (fst ca) [encoder_encode; encoder_set_params]) h ->
+    let r := run_history D A app app0 appendD h r0 in
+    snd (exec_call D A app app0 appendD a r encoder_encode)
+    = snd (exec_call D A app app0 appendD a (rupd D (fresh D) "params" (r "params")) encoder_encode).
+Proof.
+  intros D A app app0 appendD r0 h a Hh r.
+  apply (config_determines_output D A app app0 appendD encoder_cfg encoder_encode);
+    [apply (proj1 encoder_self_initialising)|apply (proj2 (proj2 encoder_self_initialising))|].
+  intros f [<-|[]]. unfold rupd. rewrite String.eqb_refl. reflexivity.
+Qed.
 
-Lemma encoder_set_params_not_compatible :
-  compatible encoder_cfg encoder_encode encoder_set_params = false.
-Proof. vm_compute. reflexivity. Qed.
-
+(* HISTORICAL WITNESS F25 (repaired).  Before the repair quantizationInfo() computed the tables
+   once per object and nothing cleared qcdReady: changing BitDepth, NumLevels or Lossless through
+   the retained *EncodeParams between two Encode calls gave a codestream different from a new
+   encoder's (186 vs 189, 255 vs 252, 369 vs 385 bytes in the suite's three cases).  In the
+   model this is the SMemo step; a parameter change is not `compatible` with it and the cache
+   computed for the old parameters survives: *)
 Definition enc_app (g : string) (a : nat) (vs : list (option nat)) : nat :=
   if String.eqb g "new_params" then a
-  else if String.eqb g "codestream" then (100 * val0 (nth 0 vs None) + val0 (nth 11 vs None))%nat
+  else if String.eqb g "codestream" then (100 * val0 (nth 0 vs None) + val0 (nth 3 vs None))%nat
   else O.
 Definition enc_app0 (g : string) (vs : list (option nat)) : nat :=
   if String.eqb g "quant.steps" then val0 (nth 0 vs None) else O.
-
-Definition enc_out (params0 : nat) (h : list (call * nat)) (a : nat) : nat :=
+Definition enc_out_unrepaired (params0 : nat) (h : list (call * nat)) (a : nat) : nat :=
   snd (exec_call nat nat enc_app enc_app0 dec_append a
          (run_history nat nat enc_app enc_app0 dec_append h
-            (rupd nat (fresh nat) "params" (Some params0))) encoder_encode).
+            (rupd nat (fresh nat) "params" (Some params0))) encoder_encode_unrepaired).
 
-Theorem encoder_params_change_refuted :
-  (* Encode with parameters 1, change them to 2, Encode: not what a new encoder with parameters 2 gives *)
-  enc_out 1 [(encoder_encode, 7); (encoder_set_params, 2)] 7 <> enc_out 2 [] 7.
-Proof. vm_compute. discriminate. Qed.
+Lemma unrepaired_encoder_stale_cache :
+  self_initialising encoder_cfg encoder_encode_unrepaired = true
+  /\ compatible encoder_cfg encoder_encode_unrepaired encoder_set_params = false
+  /\ enc_out_unrepaired 1 [(encoder_encode_unrepaired, 7); (encoder_set_params, 2)] 7
+       <> enc_out_unrepaired 2 [] 7.
+Proof. split; [vm_compute; reflexivity|]. split; [vm_compute; reflexivity|]. vm_compute. discriminate. Qed.
 
 (* The two halves of facts_cover in one statement. *)
 Theorem facts_cover : decoder_facts_cover = true /\ encoder_facts_cover = true.
